@@ -1,0 +1,71 @@
+//go:build verif
+
+// Machine-checked contracts of Share and of the connectable observable (C11, C13): one mutex guards
+// the current subject, the upstream subscription and the reference count; the source is subscribed
+// only by the subscriber that created the subject. Comments only; read by the verifier in /verif.
+
+package ro
+
+// The state shared by all subscribers of one Share()d observable lives in the cells of the closure
+// ShareWithConfig$1 (the function applied to the source).
+
+//@ type shareEnv
+//@   env ShareWithConfig
+//@   lock mu protects subject sourceSubscription refCount
+//@   atomic hasBeenResetOnError : rely new == 0 || new == 1
+//@   atomic hasBeenResetOnCompletion : rely new == 0 || new == 1
+//@   const config source getOrCreateSubject reset
+
+//@ func ShareWithConfig$1$3
+//@   note the subscribe function of a shared observable
+//@   type shareEnv
+//@   props C11 C13
+//@   inline ShareWithConfig$1$1
+//@   track source.* currentSubject.* config.* sourceSubscription.* call.NewSubscription call.NewSubscriber NewSubscription().* getOrCreateSubject()#0.* getOrCreateSubject()#1.*
+//@   ensures [counts-one-subscriber|C11] atunlock(refCount) == atlock(refCount) + 1
+//@   ensures [creates-only-when-none|C11] called(call.NewSubscription) ==> atlock(subject) == nil || atlock(sourceSubscription) == nil
+//@   ensures [source-subscribed-only-by-creator|C11] called(source.SubscribeWithContext) ==> called(call.NewSubscription)
+//@   ensures [source-subscribed-at-most-once|C11] count(source.SubscribeWithContext) <= 1
+//@   ensures [one-critical-section|C11,C13] count(lock.mu) == 1
+
+//@ func ShareWithConfig$1$2
+//@   note reset(currentSubject, currentSourceSubscription): called with mu held by its callers
+//@   type shareEnv
+//@   props C11
+//@   holding mu
+//@   track currentSourceSubscription.*
+//@   ensures [releases-the-upstream-of-that-generation|C11] trace(currentSourceSubscription.Unsubscribe())
+//@   ensures [clears-only-the-current-generation|C11] subject == ite(currentSubject == old(subject), nil, old(subject))
+//@   ensures [leaves-the-count-alone|C11] refCount == old(refCount)
+
+//@ func ShareWithConfig$1$3$3
+//@   note the teardown of one subscriber
+//@   type shareEnv
+//@   props C11 C13
+//@   inline ShareWithConfig$1$2
+//@   track sub.* currentSourceSubscription.*
+//@   ensures [leaves-the-subject|C11] called(sub.Unsubscribe)
+//@   ensures [uncounts-one-subscriber|C11] atunlock(refCount) == atlock(refCount) - 1
+//@   ensures [last-one-out-releases-upstream|C11] did_load(hasBeenResetOnError) && did_load(hasBeenResetOnCompletion) && config.ResetOnRefCountZero && atlock(refCount) == 1 && loaded(hasBeenResetOnError) == 0 && loaded(hasBeenResetOnCompletion) == 0 ==> called(currentSourceSubscription.Unsubscribe)
+//@   ensures [others-remain-so-upstream-stays|C11] atlock(refCount) != 1 ==> !called(currentSourceSubscription.Unsubscribe)
+//@   ensures [last-one-out-reads-both-flags|C11] config.ResetOnRefCountZero && atlock(refCount) == 1 ==> did_load(hasBeenResetOnError)
+//@   ensures [one-critical-section|C11,C13] count(lock.mu) == 1
+
+// ---------------------------------------------------------------------------
+// connectable observable (observable.go)
+// ---------------------------------------------------------------------------
+
+//@ type connectableObservableImpl
+//@   lock mu protects subject subscription
+//@   const config source
+
+//@ func (*connectableObservableImpl).ConnectWithContext
+//@   props C11 C13
+//@   track source.* subscription.* SubscribeWithContext().*
+//@   ensures [connects-once|C11] count(source.SubscribeWithContext) <= 1
+//@   ensures [connected-stays-connected|C11] called(source.SubscribeWithContext) ==> atlock(subscription) == nil || (called(subscription.IsClosed) && res(subscription.IsClosed) == true)
+
+//@ func (*connectableObservableImpl).SubscribeWithContext
+//@   props C11 C13
+//@   track source.* subject.*
+//@   ensures [never-touches-the-source|C11] !called(source.SubscribeWithContext) && called(subject.SubscribeWithContext)
